@@ -88,6 +88,13 @@ def units(rng, tier):
                 v = v[:6]
                 kk = min(kk, 7)      # all_combinations enumerates k! permutations
             us.append(mk(rng, a, kk, v, fam))
+    # large instances for the polynomial heuristics: many items, many bins (around 16 / 32 / 64, where an implementation might switch strategy)
+    for _ in range(8 if tier == "quick" else 80):
+        nn = rng.choice([40, 64, 65, 100, 129, 200])
+        hi = rng.choice([20, 1000, 2 ** 30])
+        vals = [rng.randint(0 if rng.random() < 0.1 else 1, hi) for _ in range(nn)]
+        for a in ("greedy", "roundrobin", "bidir", "kk", "multifit"):
+            us.append(part_unit(a, rng.choice([2, 5, 16, 31, 32, 33, 40, 64, 65]), vals, rng, fmt=rng.choice(["list", "dict_str", "array"]), cmp="sums" if a in ("kk", "multifit") else "bins", family="large"))
     return us
 
 
